@@ -460,6 +460,8 @@ func (c *Ctx) sliceObligations(eng *ranges.Engine, funcs map[*ssa.Function]bool,
 						default:
 							if _, isParam := x.X.(*ssa.Parameter); isParam {
 								add("SLICE-CONST", fn, construct, report.OutOfScope, ins, "slice is a parameter: length contract with the callers is not decided")
+							} else if why := lengthAsked(x.X, b); why != "" {
+								add("SLICE-CONST", fn, construct, report.OutOfScope, ins, "a dominating branch asks about the buffer ("+why+"); what that establishes is not decided")
 							} else {
 								add("SLICE-CONST", fn, construct, report.Violated, ins, fmt.Sprintf("constant slice bound %d on a stream buffer with no test of its length on any dominating path", maxConst))
 							}
@@ -543,6 +545,10 @@ func (c *Ctx) sliceObligations(eng *ranges.Engine, funcs map[*ssa.Function]bool,
 					default:
 						if _, isParam := x.X.(*ssa.Parameter); isParam {
 							add("SLICE-CONST", fn, construct, report.OutOfScope, ins, "slice is a parameter: length contract with the callers is not decided")
+							continue
+						}
+						if why := lengthAsked(x.X, b); why != "" {
+							add("SLICE-CONST", fn, construct, report.OutOfScope, ins, "a dominating branch asks about the buffer ("+why+"); what that establishes is not decided")
 							continue
 						}
 						add("SLICE-CONST", fn, construct, report.Violated, ins, fmt.Sprintf("constant index %s into a stream buffer with no test of its length on any dominating path: a truncated segment panics with index out of range", k.Value.String()))
@@ -1402,4 +1408,78 @@ func resultTailOfArg(call *ssa.Call, resIdx, outIdx int, want bool) (ssa.Value, 
 		return nil, 0, false
 	}
 	return call.Call.Args[pi], k, true
+}
+
+// sliceRoots: the values a slice is a window / merge of (through slice expressions, phis and
+// type changes), itself included.
+func sliceRoots(v ssa.Value) map[ssa.Value]bool {
+	out := map[ssa.Value]bool{}
+	var walk func(ssa.Value, int)
+	walk = func(x ssa.Value, d int) {
+		if x == nil || out[x] || d > 10 {
+			return
+		}
+		out[x] = true
+		switch y := x.(type) {
+		case *ssa.Slice:
+			walk(y.X, d+1)
+		case *ssa.Phi:
+			for _, e := range y.Edges {
+				walk(e, d+1)
+			}
+		case *ssa.ChangeType:
+			walk(y.X, d+1)
+		}
+	}
+	walk(v, 0)
+	return out
+}
+
+// lengthAsked: does some branch that dominates block b depend on the length of s, on s being nil,
+// or on the answer of a library helper that was handed s? The SLICE-CONST witness is "nothing ever
+// asks about the buffer before the access"; a test whose meaning the engine cannot follow (a
+// nil-or-n-bytes helper result tested against nil, len() inside min(), a bool helper written as one
+// && chain) makes the access undecided, not violated.
+func lengthAsked(s ssa.Value, b *ssa.BasicBlock) string {
+	roots := sliceRoots(s)
+	related := func(v ssa.Value) bool {
+		for r := range sliceRoots(v) {
+			if roots[r] {
+				return true
+			}
+		}
+		return false
+	}
+	for _, d := range b.Parent().Blocks {
+		if !d.Dominates(b) || len(d.Instrs) == 0 {
+			continue
+		}
+		iff, ok := d.Instrs[len(d.Instrs)-1].(*ssa.If)
+		if !ok {
+			continue
+		}
+		for v := range backwardSlice(iff.Cond, 300) {
+			switch y := v.(type) {
+			case *ssa.Call:
+				if bi, ok := y.Call.Value.(*ssa.Builtin); ok {
+					if (bi.Name() == "len" || bi.Name() == "cap") && len(y.Call.Args) == 1 && related(y.Call.Args[0]) {
+						return bi.Name() + "() of the buffer feeds the condition"
+					}
+					continue
+				}
+				for _, a := range y.Call.Args {
+					if _, isSlice := a.Type().Underlying().(*types.Slice); isSlice && related(a) {
+						return "the buffer is handed to " + calleeName(&y.Call) + ", whose answer is tested"
+					}
+				}
+			case *ssa.BinOp:
+				if y.Op == token.EQL || y.Op == token.NEQ {
+					if isNilConst(y.X) && related(y.Y) || isNilConst(y.Y) && related(y.X) {
+						return "the buffer is compared with nil"
+					}
+				}
+			}
+		}
+	}
+	return ""
 }
